@@ -53,5 +53,7 @@ func C08(c *core.Ctx) {
 	ruleMultiSel(c, ruleSet("A-REJ", "A-NOEXTRA"), 1, "three files with their own minLength")
 	// the list the generator sees is the list the document states: no value dropped, merged or re-typed by the decoder
 	ruleFidelity(c, "enum")
+	// an enum field that is not exported is never decoded, i.e. never checked (A-IDENT)
+	ruleIdent(c)
 	c.Floor("families", c.Counts["members"], 70, "family members")
 }
